@@ -22,8 +22,14 @@ def gen_messages(chk, n):
         rng = chk.rng
         h = gen.headers(rng)
         b = gen.body(rng)
+        BIG = [4095, 4096, 16383, 16384, 16385, 20000, 65535, 65536, 100000, 1 << 20]
+        if i < len(BIG) or rng.random() < 0.02:
+            # one large header value (a long status message, a token): everything up to the frame limit round-trips
+            h = [kv for kv in h if kv[0] != "big"] + [("big", "v" * (BIG[i] if i < len(BIG) else rng.choice(BIG)))]
         if rng.random() < 0.5:
             route = gen.utf8_string(rng, 60)
+            if i % 7 == 3 or rng.random() < 0.01:
+                route = "/" + "r" * rng.choice([4096, 16384, 65536, 200000])
             case = "encreq none %s %s %s" % (hx(route.encode()), hx(b), gen.headers_tokens(h))
             msgs.append(("req", case, canon_msg("req", hx(route.encode()), b, h), len(h), len(b)))
         else:
